@@ -112,4 +112,35 @@ example : (sealedValues (run Crypto.toy toyNonce (fun _ _ => false) (init Crypto
   simp [sealedValues, boundArgs, run, step, update, resolveP, cacheGet, init, provision, newStoreKey, wrapProfileKey,
     sqlInsertItem, Ctx.bind, insertTags]
 
+/-! ### Live rows (added after the first release of this file: `Lemmas.values_logged` was OPEN) -/
+
+/-- Every `items.value` column of every store of a reachable state (the store and the target of `copy_to`) is one of
+    the value encryptions logged in the history — nothing else is ever written into that column. -/
+theorem stored_values_are_logged (C : Crypto) (rng : Nat → Nonce) (like : Bytes → Bytes → Bool) (m : Method) (p : String)
+    (ops : List Op) :
+    ∀ s ∈ stores (run C rng like (init C rng m p) ops).1, ∀ it ∈ s.db.items,
+      it.value ∈ (run C rng like (init C rng m p) ops).1.ctx.sealed.map (·.2) :=
+  Lemmas.values_logged C rng like m p ops
+
+/-- Two live rows never hold the same value bytes: list the `items.value` column of ALL rows of ALL stores of a
+    reachable state (the store, then the target of `copy_to`; rows in table order); no byte string occurs twice —
+    whether or not plaintexts, categories, names, profiles or stores coincide — provided the random stream does not
+    repeat among the draws the history consumed (the hypothesis of `value_nonces_fresh`). -/
+theorem live_rows_hold_distinct_value_bytes (C : Crypto) (rng : Nat → Nonce) (like : Bytes → Bytes → Bool) (m : Method)
+    (p : String) (ops : List Op) (hinj : Lemmas.InjBelow rng (run C rng like (init C rng m p) ops).1.ctx.ctr) :
+    (((stores (run C rng like (init C rng m p) ops).1).flatMap (·.db.items)).map (·.value.bytes)).Nodup :=
+  Lemmas.live_values_nodup C rng like m p ops hinj
+
+/-- non-vacuity: a history with two live rows of the SAME category, name and plaintext value (they differ in kind),
+    for which the hypothesis on the random stream holds -/
+example :
+    (((stores (run Crypto.toy toyNonce (fun _ _ => false) (init Crypto.toy toyNonce .raw "p")
+      [.update "p" 2 true "c" "n" [1] none, .update "p" 3 true "c" "n" [1] none]).1).flatMap (·.db.items)).map
+        (·.value.bytes)).length = 2 ∧
+    Lemmas.InjBelow toyNonce (run Crypto.toy toyNonce (fun _ _ => false) (init Crypto.toy toyNonce .raw "p")
+      [.update "p" 2 true "c" "n" [1] none, .update "p" 3 true "c" "n" [1] none]).1.ctx.ctr := by
+  refine ⟨?_, Lemmas.injBelow_mono Lemmas.toyNonce_injBelow ?_⟩ <;>
+  simp [stores, run, step, update, resolveP, cacheGet, init, provision, newStoreKey, wrapProfileKey,
+    sqlInsertItem, Ctx.bind, insertTags, PItem.matches]
+
 end Askar.Provenance
